@@ -427,3 +427,14 @@ Definition k2_case_ok (c: k2_case) : bool :=
   match merge_options (KNs a) (KNs b) (KNs []) with
   | Ok (KNs r) => forallb (fun p => kv_eqb (option_of r (fst p)) (snd p)) expected
   | _ => false end.
+
+(* has_keys is decidable: used by the non-vacuity examples *)
+Lemma has_keys_dec keys d :
+  forallb (fun k => match ns_get d k with Some _ => true | None => false end) keys = true -> has_keys keys d.
+Proof.
+  intros H k Hk. pose proof (proj1 (forallb_forall _ _) H k Hk) as E. cbn in E.
+  destruct (ns_get d k); [discriminate|discriminate E].
+Qed.
+
+(* a dialect namespace as class Dialect gives it: every merged attribute bound, to MISSING *)
+Definition blank_dialect : list (string * kv) := map (fun k => (k, KMissing)) merge_loop_keys.
